@@ -91,7 +91,8 @@ pub fn check_cell_c07(c: u64, kmax: i32, transitions: &AtomicU64) -> Vec<Viol> {
             out.push(viol("C07/parent-finer", format!("cell_to_parent to a finer resolution returned {}", subj::hex(p)), idcase(c)));
         }
     }
-    // jumps: children(c, res+k) equals the k-fold expansion
+    // jumps: children(c, res+k) equals the k-fold expansion (coarse cells: every target in scope)
+    let kmax = if res <= 2 { 9 } else { kmax };
     for k in 2..=kmax {
         let t = res + k;
         if t > 29 || rc::fanout(res, t) > 65536 {
